@@ -102,6 +102,13 @@ static uint64_t rng;
 static uint64_t last_run[MAXT];
 static uint64_t starve_limit = 2500;
 static int boost_tid = -1;
+/* directed schedules: VR_STALL_FUNC=<function> freezes the running thread for VR_STALL_LEN
+ * scheduling points right after a write/RMW performed inside that function (each occurrence
+ * with probability 1/VR_STALL_DEN) - "park the suspending fiber inside its publication window
+ * and let everybody else run" */
+static uintptr_t stall_lo, stall_hi;
+static uint64_t stall_len = 200;
+static int stall_den = 2;
 /* idle_flag[t]: kernel thread t's last observable action was an epoll_wait that found nothing */
 static int idle_flag[MAXT];
 static uint64_t boost_until;
@@ -153,6 +160,13 @@ static void give(int to) {
   futex_wake(&turn);
 }
 
+typedef struct sym {
+  uintptr_t lo, hi;
+  const char* name;
+} sym_t;
+static sym_t* syms;
+static int nsym;
+static void load_syms(void);
 static void vr_init(void) {
   if (inited) return;
   inited = 1;
@@ -177,6 +191,20 @@ static void vr_init(void) {
   auto_tick = envl("VR_AUTOTICK", 1);
   ro_limit = envl("VR_ROSPIN", ro_limit);
   starve_limit = envl("VR_STARVE", starve_limit);
+  {
+    const char* sf = getenv("VR_STALL_FUNC");
+    if (sf && *sf) {
+      load_syms();
+      for (int i = 0; i < nsym; i++)
+        if (!strcmp(syms[i].name, sf)) {
+          stall_lo = syms[i].lo;
+          stall_hi = syms[i].hi;
+        }
+      stall_len = envl("VR_STALL_LEN", stall_len);
+      stall_den = envl("VR_STALL_DEN", stall_den);
+      if (stall_den < 1) stall_den = 1;
+    }
+  }
   const char* sk = getenv("VR_SCHED");
   if (sk && !strcmp(sk, "pct")) sched_kind = 1;
   else if (sk && !strcmp(sk, "freeze")) sched_kind = 2;
@@ -270,17 +298,12 @@ static inline int find_cell(uintptr_t a, int size) {
 
 /* ------------------------------------------------------------------ log output */
 
-typedef struct sym {
-  uintptr_t lo, hi;
-  const char* name;
-} sym_t;
-static sym_t* syms;
-static int nsym;
 static int symcmp(const void* a, const void* b) {
   uintptr_t x = ((const sym_t*)a)->lo, y = ((const sym_t*)b)->lo;
   return x < y ? -1 : x > y;
 }
 static void load_syms(void) {
+  if (syms) return;
   int fd = open("/proc/self/exe", O_RDONLY);
   if (fd < 0) return;
   struct stat st;
@@ -518,6 +541,11 @@ static void sp(int spin, int post_write) {
   } else
     allspin_streak = 0;
   if (sched_kind == 2 && post_write && freeze_den && xs() % freeze_den == 0) frozen_until[my_tid] = sp_count + freeze_len;
+  if (stall_hi && post_write && cur_fiber && cur_fiber->depth > 0) {
+    int dd = cur_fiber->depth - 1 < SHDEPTH ? cur_fiber->depth - 1 : SHDEPTH - 1;
+    uintptr_t pc = (uintptr_t)cur_fiber->pcs[dd];
+    if (pc >= stall_lo && pc < stall_hi && xs() % stall_den == 0) frozen_until[my_tid] = sp_count + stall_len;
+  }
   int nx = pick(my_tid, spin);
   if (nx != my_tid) {
     int me = my_tid;
